@@ -1392,3 +1392,146 @@ func setsHighBit(v ssa.Value, d int) bool {
 	}
 	return false
 }
+
+// ---- dirremoval (C13): the temporary directory is removed with what it holds ----
+
+// ruleDirRemoval: the sorter's temporary directory can hold run files whenever
+// it is removed — exhausted runs of a drained cycle stay there until CleanUp
+// unless AutoClear is set, also in a later cycle that happens to fit in
+// memory. Every removal of m.dir in package morass is therefore os.RemoveAll;
+// os.Remove fails with ENOTEMPTY (its error is not looked at) and leaves the
+// directory and the files behind.
+func ruleDirRemoval(c *Ctx, rule string) {
+	sp := c.SPkgs[c.pkg("morass").PkgPath]
+	n := 0
+	for _, fn := range srcFuncs(sp) {
+		for _, b := range fn.Blocks {
+			for _, ins := range b.Instrs {
+				call, ok := ins.(*ssa.Call)
+				if !ok || len(call.Call.Args) != 1 {
+					continue
+				}
+				whole := calleeIs(&call.Call, "os", "RemoveAll")
+				single := calleeIs(&call.Call, "os", "Remove")
+				if !whole && !single {
+					continue
+				}
+				if !loadOfField(call.Call.Args[0], morassPkg, "Morass", "dir") {
+					continue
+				}
+				n++
+				c.Funcs[funcName(fn)] = true
+				key := funcName(fn) + "/temporary-directory-removed-with-contents#" + itoa(n)
+				if whole {
+					c.ok(rule, key, call.Pos(), "os.RemoveAll(m.dir)")
+				} else {
+					c.bad(rule, key, call.Pos(), "the temporary directory is removed with os.Remove, which fails when it is not empty: run files of an earlier, drained cycle are still there when a later cycle ends on this path, so the directory and the files are left behind (and the error is not reported)")
+				}
+			}
+		}
+	}
+	if n == 0 {
+		c.und(rule, "morass/temporary-directory-removal", token.NoPos, "no removal of m.dir found in package morass")
+	}
+}
+
+// ---- queryintact (C15): the complement strand is searched on a copy ----
+
+// ruleQueryIntact: PALS.Align(true) searches the reverse complement of the
+// query. The sequence it reverse-complements must be a copy on every path: the
+// caller's query is aligned again for the other strand (and may be the indexed
+// target itself), so reverse-complementing it in place makes every later search
+// run on the wrong strand and leaves the caller's data changed.
+func ruleQueryIntact(c *Ctx, rule string) {
+	for _, name := range []string{"(*PALS).Align", "(*PALS).AlignFrom"} {
+		ruleQueryIntactFor(c, rule, c.fn("align/pals", name))
+	}
+}
+
+func ruleQueryIntactFor(c *Ctx, rule string, root *ssa.Function) {
+	c.Funcs[funcName(root)] = true
+	n := 0
+	for _, fn := range privateReach(root) {
+		if fn.Pkg != root.Pkg {
+			continue
+		}
+		for _, b := range fn.Blocks {
+			for _, ins := range b.Instrs {
+				call, ok := ins.(*ssa.Call)
+				if !ok {
+					continue
+				}
+				nm := calleeName(&call.Call)
+				if nm != "RevComp" && nm != "Reverse" {
+					continue
+				}
+				var recv ssa.Value
+				if call.Call.IsInvoke() {
+					recv = call.Call.Value
+				} else if len(call.Call.Args) > 0 {
+					recv = call.Call.Args[0]
+				}
+				if recv == nil {
+					continue
+				}
+				n++
+				key := funcName(root) + "/" + nm + "-on-a-copy#" + itoa(n)
+				var shared ssa.Value
+				seen := map[ssa.Value]bool{}
+				var walk func(v ssa.Value, d int)
+				walk = func(v ssa.Value, d int) {
+					if d > 6 || seen[v] || shared != nil {
+						return
+					}
+					seen[v] = true
+					switch x := v.(type) {
+					case *ssa.Phi:
+						for _, e := range x.Edges {
+							walk(e, d+1)
+						}
+					case *ssa.TypeAssert:
+						walk(x.X, d+1)
+					case *ssa.ChangeInterface:
+						walk(x.X, d+1)
+					case *ssa.MakeInterface:
+						walk(x.X, d+1)
+					case *ssa.Call:
+						if cn := calleeName(&x.Call); cn == "Clone" || cn == "New" || freshMethods[cn] {
+							return // a copy
+						}
+						shared = v
+					case *ssa.UnOp:
+						if x.Op == token.MUL {
+							if _, ok := x.X.(*ssa.FieldAddr); ok {
+								shared = v // a field of the aligner: the caller's sequence
+								return
+							}
+							if al, ok := x.X.(*ssa.Alloc); ok {
+								for _, r := range *al.Referrers() {
+									if st, ok := r.(*ssa.Store); ok && st.Addr == ssa.Value(al) {
+										walk(st.Val, d+1)
+									}
+								}
+								return
+							}
+						}
+						shared = v
+					case *ssa.Alloc:
+						return
+					default:
+						shared = v
+					}
+				}
+				walk(recv, 0)
+				if shared == nil {
+					c.ok(rule, key, call.Pos(), "the sequence is a copy on every path")
+				} else {
+					c.bad(rule, key, call.Pos(), "on some path the sequence that is reverse-complemented is "+symName(shared, nil)+", the caller's own sequence, not a copy: after a search of the complement strand the query stays reverse-complemented, so the next search (the other strand, a second call, another aligner on the same query) runs on the wrong strand")
+				}
+			}
+		}
+	}
+	if n == 0 {
+		c.und(rule, funcName(root)+"/RevComp-on-a-copy", root.Pos(), "Align reverse-complements nothing")
+	}
+}
